@@ -102,13 +102,13 @@ fn serialize_list(arr: &[Primitive], out: &mut impl io::Write) -> Result<()> {
 
 pub fn serialize_name(s: &str, out: &mut impl io::Write) -> Result<()> {
     write!(out, "/")?;
-    for b in s.chars() {
+    // regular characters are written as they are; white space, delimiters, '#' and everything
+    // outside printable ASCII as #xx (two hexadecimal digits per byte of the UTF-8 form)
+    for &b in s.as_bytes() {
         match b {
-            '\\' | '(' | ')' => write!(out, r"\")?,
-            c if c > '~' => panic!("only ASCII"),
-            _ => ()
+            b'!'..=b'~' if !b"()<>[]{}/%#".contains(&b) => out.write_all(&[b])?,
+            _ => write!(out, "#{:02X}", b)?,
         }
-        write!(out, "{}", b)?;
     }
     Ok(())
 }
@@ -204,7 +204,8 @@ impl Dictionary {
     fn serialize(&self, out: &mut impl io::Write) -> Result<()> {
         writeln!(out, "<<")?;
         for (key, val) in self.iter() {
-            write!(out, "{} ", key)?;
+            serialize_name(key.as_str(), out)?;
+            write!(out, " ")?;
             val.serialize(out)?;
             writeln!(out)?;
         }
